@@ -36,7 +36,7 @@ func projSource(r *rand.Rand) string {
 		}
 		return sb.String()
 	}
-	switch r.Intn(14) {
+	switch r.Intn(15) {
 	case 12:
 		// an expression whose text looks like an id action
 		return core.Pick(r, "uid:0\ngid:0\neuid:0\n", "\\bid:9\\d+\n", "x,id:123,\n")
@@ -58,6 +58,9 @@ func projSource(r *rand.Rand) string {
 		// (the same word with different markers in different files of a tree: what one file makes of a word is no
 		// business of the next)
 		return "##!> cmdline unix\n  " + core.Pick(r, "ls", "cat@", "python~", "nc", "python@", "python") + "\n  " + core.Pick(r, "id", "wget@", "sh~", "sh@", "sh", "wget~") + "\n##!<\n"
+	case 14:
+		// names that are defined twice (the first value counts)
+		return "##!> define dq [\"']\n##!> define sl /\n##!> define dq \"\n##!> define sl [/\\\\]\n##!> define dot \\.\n##!> define dot [.]\n" + w() + "{{dq}}{{sl}}{{dot}}\n" + list(2)
 	case 13:
 		// an assembly file of more than a kilobyte
 		var sb strings.Builder
